@@ -114,6 +114,18 @@ class FileWorld(World):
         self.sync = [int(self.project.receive_sync_midi), int(self.project.receive_sync_other)]
 
 
+def image_cells(r, lines, tracks, sparse=None):
+    """Cells of a seeded pattern image; a sparse one leaves about half of the cells empty (all zero)."""
+    cells = [[[r.choice(NOTE_VALUES), r.randrange(130), r.getrandbits(16), r.getrandbits(16), r.getrandbits(16)] for _ in range(tracks)] for _ in range(lines)]
+    if sparse:
+        rr = seeds.rng(sparse, "sparse")
+        for row in cells:
+            for t in range(len(row)):
+                if rr.random() < 0.5:
+                    row[t] = [0, 0, 0, 0, 0]
+    return cells
+
+
 def hold(w):
     """References to the notes, taken once (at setup / after a restart) like a caller would keep them."""
     w.held = [[n for n in line] for line in w.pattern.data]
@@ -305,12 +317,35 @@ def execute(case):
                 raw_first(w, violations, i, "after_clear")
                 unhold(w)
                 probes["pattern_cleared"] = probes.get("pattern_cleared", 0) + 1
-                for l in range(lines):
-                    for t in range(tracks):
-                        check_note(w, l, t, violations, i, None)
+                if op.get("peek", True):
+                    for l in range(lines):
+                        for t in range(tracks):
+                            check_note(w, l, t, violations, i, None)
+            elif k == "image_bad":
+                # an image that is refused: too short (cut inside a cell or between cells).  What the grid holds
+                # afterwards is whatever the library left (the statement does not promise atomicity); the
+                # model takes it over from raw_data, WITHOUT looking at pattern.data, and the ordinary ops go on
+                r = seeds.rng(op.get("seed", 0), "image")
+                cells = image_cells(r, lines, tracks, op.get("sparse"))
+                img = b"".join(struct.pack("<BBHHH", *c) for row in cells for c in row)
+                cut = op.get("cut", 0) % max(1, len(img))
+                try:
+                    w.pattern.raw_data = img[:cut]
+                    outcome = "accepted"
+                except (KeyboardInterrupt, HarnessTimeout):
+                    raise
+                except Exception as e:
+                    if not env.raised_in_rv(e) and not isinstance(e, struct.error):
+                        raise
+                    outcome = type(e).__name__
+                unhold(w)
+                now = w.pattern.raw_data
+                if len(now) == 8 * lines * tracks:
+                    w.cells = [[list(struct.unpack_from("<BBHHH", now, 8 * (l * tracks + t))) for t in range(tracks)] for l in range(lines)]
+                probes["pattern_image_refused:" + outcome] = probes.get("pattern_image_refused:" + outcome, 0) + 1
             elif k == "image":
                 r = seeds.rng(op.get("seed", 0), "image")
-                cells = [[[r.choice(NOTE_VALUES), r.randrange(130), r.getrandbits(16), r.getrandbits(16), r.getrandbits(16)] for _ in range(tracks)] for _ in range(lines)]
+                cells = image_cells(r, lines, tracks, op.get("sparse"))
                 img = b"".join(struct.pack("<BBHHH", *c) for row in cells for c in row)
                 w.pattern.raw_data = img
                 w.cells = cells
@@ -452,7 +487,7 @@ def generate(seed, i, tier="quick"):
         ops = [{"k": "setup_file", "f": r.randrange(5)}]
     else:
         ops = [{"k": "setup", "lines": r.randrange(8), "tracks": r.randrange(4), "nmods": r.randrange(4)}]
-    kinds = ["nsub"] * 6 + ["nword"] * 2 + ["nprim"] * 2 + ["image", "image", "clear", "cellobj", "swap_lines", "reverse_line", "vsub", "vsub", "vsub", "vword", "midi", "midi", "sync", "sync", "save_load"]
+    kinds = ["nsub"] * 6 + ["nword"] * 2 + ["nprim"] * 2 + ["image", "image", "image_bad", "clear", "cellobj", "swap_lines", "reverse_line", "vsub", "vsub", "vsub", "vword", "midi", "midi", "sync", "sync", "save_load"]
     image_pool = [r.getrandbits(30), r.getrandbits(30)]  # images recur within a run (the same bytes assigned again)
     focus_cell = (r.randrange(8), r.randrange(4))
     for _ in range(r.randint(5, 60)):
@@ -464,6 +499,15 @@ def generate(seed, i, tier="quick"):
         elif k == "image":
             op["seed"] = r.choice(image_pool) if r.random() < 0.7 else r.getrandbits(30)
             op["peek"] = r.random() < 0.5
+            if r.random() < 0.4:
+                op["sparse"] = r.randrange(1, 1000)
+        elif k == "clear":
+            op["peek"] = r.random() < 0.5
+        elif k == "image_bad":
+            op["seed"] = r.choice(image_pool) if r.random() < 0.5 else r.getrandbits(30)
+            op["cut"] = r.choice([r.randrange(1, 400), 8 * r.randrange(1, 40), 8 * r.randrange(1, 40) + r.randrange(1, 8)])
+            if r.random() < 0.4:
+                op["sparse"] = r.randrange(1, 1000)
         elif k == "cellobj":
             op.update(l=r.randrange(8), t=r.randrange(4), v=r.getrandbits(63))
         elif k == "swap_lines":
